@@ -165,6 +165,7 @@ func TestPlan(t *testing.T) {
 		p.Shards = append(p.Shards, ev.ShardSpec{Name: "deep-0", Test: "^TestFindDeep$", TimeoutS: 1200})
 		p.Shards = append(p.Shards, ev.ShardSpec{Name: "names-0", Test: "^TestFindNames$", TimeoutS: 600})
 		p.Shards = append(p.Shards, ev.ShardSpec{Name: "history-0", Test: "^TestFindHistory$", TimeoutS: 600})
+		p.Shards = append(p.Shards, ev.ShardSpec{Name: "crowded-0", Test: "^TestFindCrowded$", TimeoutS: 900})
 	}
 	if err := ev.WritePlan(p); err != nil {
 		t.Fatal(err)
@@ -444,6 +445,121 @@ func TestFindNames(t *testing.T) {
 	}
 }
 
+// TestFindCrowded: (a) directories with very many entries (1 023, 1 024, 1 025, 5 000) in which the
+// spokfile was created first or last (where it comes in the raw listing is the file system's
+// business), with another spokfile one level up as a decoy; (b) start directories reached through a
+// link that names one of their own ancestors (`self -> .`, `up -> ..`): the climb is over the names
+// in the path, and an enclosing spokfile is found however often a real directory is passed.
+func TestFindCrowded(t *testing.T) {
+	s := ev.Open(t, "C17")
+	s.Watchdog(10*time.Second, 4<<30)
+	defer s.Done()
+	if f := execFindCrowded(t, s); f != nil || s.Failed() {
+		t.Fatal("violations recorded")
+	}
+}
+
+// execFindCrowded runs the whole space; with s == nil (replay) it only returns the first failure.
+func execFindCrowded(t *testing.T, s *ev.Shard) *rp.Fail {
+	base := findBase(t)
+	seen := map[string]bool{}
+	var idx uint64
+	var first *rp.Fail
+	judge := func(class string, c map[string]any, start, stop, want string) {
+		idx++
+		data, _ := json.Marshal(c)
+		if s != nil {
+			s.Progress(idx, data)
+			s.Tick()
+			s.Eval()
+			s.Class(class)
+			s.NonTrivial(class + string(data))
+		}
+		got, err := file.Find(nopLogger{}, start, stop)
+		sig, msg := "", ""
+		switch {
+		case want == "" && err == nil:
+			sig, msg = "found-above-stop", fmt.Sprintf("%v: no spokfile between start and stop, Find returned %s", c, rel(base, got))
+		case want != "" && err != nil:
+			sig, msg = "spokfile-missed", fmt.Sprintf("%v: the nearest spokfile is %s, Find reported %v", c, rel(base, want), err)
+		case want != "" && got != want:
+			sig, msg = "wrong-spokfile", fmt.Sprintf("%v: the nearest spokfile is %s, Find returned %s", c, rel(base, want), rel(base, got))
+		}
+		if sig != "" && first == nil {
+			first = &rp.Fail{Sig: sig, Msg: msg, Size: 3}
+		}
+		if sig != "" && !seen[sig] && s != nil {
+			seen[sig] = true
+			s.Violation("find-crowded", sig, msg, 3, c)
+		}
+	}
+	w := func(p string) {
+		if err := os.WriteFile(p, []byte("# x\n"), 0o644); err != nil {
+			t.Fatal(err)
+		}
+	}
+	for _, n := range []int{1023, 1024, 1025, 5000} {
+		for _, spokFirst := range []bool{true, false} {
+			for _, decoy := range []bool{true, false} {
+				_ = os.RemoveAll(base)
+				top, crowd := filepath.Join(base, "L"), filepath.Join(base, "L", "crowd")
+				deep := filepath.Join(crowd, "zz-sub")
+				if err := os.MkdirAll(deep, 0o755); err != nil {
+					t.Fatal(err)
+				}
+				if decoy {
+					w(filepath.Join(top, "spokfile"))
+				}
+				if spokFirst {
+					w(filepath.Join(crowd, "spokfile"))
+				}
+				for i := 0; i < n; i++ {
+					w(filepath.Join(crowd, fmt.Sprintf("entry-%05d.txt", i)))
+				}
+				if !spokFirst {
+					w(filepath.Join(crowd, "spokfile"))
+				}
+				c := map[string]any{"other_entries": n, "spokfile_created_first": spokFirst, "another_spokfile_one_level_up": decoy}
+				judge("directory_with_very_many_entries", c, deep, top, filepath.Join(crowd, "spokfile"))
+				judge("directory_with_very_many_entries", c, crowd, base, filepath.Join(crowd, "spokfile"))
+			}
+		}
+	}
+	// links that name an ancestor
+	for _, where := range []string{"L", "L/proj", "none"} {
+		_ = os.RemoveAll(base)
+		proj := filepath.Join(base, "L", "proj")
+		if err := os.MkdirAll(filepath.Join(proj, "pkg"), 0o755); err != nil {
+			t.Fatal(err)
+		}
+		_ = os.Symlink(".", filepath.Join(proj, "self"))
+		_ = os.Symlink("..", filepath.Join(proj, "pkg", "up"))
+		want := ""
+		if where != "none" {
+			want = filepath.Join(base, filepath.FromSlash(where), "spokfile")
+			w(want)
+		}
+		for _, startRel := range []string{"self", "self/pkg", "pkg/up", "pkg/up/pkg", "pkg/up/pkg/up", "self/self/pkg/up/self"} {
+			start := filepath.Join(proj, filepath.FromSlash(startRel))
+			// the nearest spokfile by the names on the path: the first directory from start upwards that holds one
+			expect := ""
+			for d := start; ; d = filepath.Dir(d) {
+				if p, ok := regularSpokfile(d); ok {
+					expect = p
+					break
+				}
+				if d == base || d == filepath.Dir(d) {
+					break
+				}
+			}
+			_ = want
+			c := map[string]any{"spokfile_in": where, "start": "L/proj/" + startRel, "links": "proj/self -> . ; proj/pkg/up -> .."}
+			judge("start_through_a_link_to_its_own_ancestor", c, start, base, expect)
+		}
+	}
+	return first
+}
+
 // TestFindHistory: one process searches again and again while spokfiles come and go on the chain:
 // every sequence of up to three changes (a spokfile appears at / disappears from one of three levels),
 // a search after each, for two stop directories. A search knows nothing of the one before.
@@ -631,6 +747,8 @@ func replayOther(t *testing.T, v ev.Violation, raw []byte) *rp.Fail {
 		return execVarsInProcess(t, nil)
 	case "readfault":
 		return execReadFaults(t, nil, newBox(t))
+	case "find-crowded":
+		return execFindCrowded(t, nil)
 	case "unpriv-find":
 		var c PermCase
 		if err := json.Unmarshal(raw, &c); err != nil {
